@@ -1885,4 +1885,126 @@ theorem extStable_readRd (d : Container) : Rd.ExtStable (readRd d) := by
   | err => simp [Res.map] at h
   | panic => simp [Res.map] at h
 
+/-! ### a reload is independent of what the destination held before -/
+
+/-- the longs loop: success, residual and (on success) the cells read depend on the old cells only through
+their number -/
+theorem readLongs_indep : ∀ (c1 c2 : List (BitVec 64)) (s : Stream), c1.length = c2.length →
+    (readLongs c1 s).1.1 = (readLongs c2 s).1.1 ∧ (readLongs c1 s).2 = (readLongs c2 s).2 ∧
+      ((readLongs c1 s).1.1 = true → (readLongs c1 s).1.2 = (readLongs c2 s).1.2)
+  | [], [], s, _ => ⟨rfl, rfl, fun _ => rfl⟩
+  | [], _ :: _, _, h => by simp at h
+  | _ :: _, [], _, h => by simp at h
+  | o1 :: r1, o2 :: r2, s, h => by
+    rcases hs : readLong s with ⟨r, s1⟩
+    cases r with
+    | ok v =>
+      obtain ⟨h1, h2, h3⟩ := readLongs_indep r1 r2 s1 (by simpa using h)
+      simp only [readLongs, hs]
+      exact ⟨h1, h2, fun hf => by rw [h3 hf]⟩
+    | err => simp [readLongs, hs]
+    | panic => simp [readLongs, hs]
+
+/-- two storages that differ at most in their spare capacity (which no operation but the slice reuse of
+`ReadFrom` looks at) -/
+def SameButSpare (a b : BitStorage) : Prop :=
+  a.data = b.data ∧ a.mask = b.mask ∧ a.bits = b.bits ∧ a.length = b.length ∧ a.vpl = b.vpl
+
+theorem SameButSpare.get_eq {a b : BitStorage} (h : SameButSpare a b) (i : Int) : a.get i = b.get i := by
+  obtain ⟨h1, h2, h3, h4, h5⟩ := h
+  unfold BitStorage.get BitStorage.indexBad BitStorage.locate
+  rw [h1, h2, h3, h4, h5]
+
+theorem take_or_fresh_length (l : List (BitVec 64)) (k : Nat) :
+    (if k ≤ l.length then l.take k else List.replicate k 0#64).length = k := by
+  split
+  · rename_i h; simp [List.length_take, h]
+  · simp
+
+theorem bitStorage_readFrom_indep (a b : BitStorage) (hl : a.length = b.length) (s : Stream) :
+    (a.readFrom s).1 = (b.readFrom s).1 ∧ (a.readFrom s).2.2 = (b.readFrom s).2.2 ∧
+      (a.readFrom s).2.1.length = (b.readFrom s).2.1.length ∧
+      (∀ n, (a.readFrom s).1 = .ok n → (a.readFrom s).2.1.data = (b.readFrom s).2.1.data) := by
+  rcases hs : varIntRead s with ⟨r, s1⟩
+  cases r with
+  | ok x =>
+    obtain ⟨len, m⟩ := x
+    simp only [BitStorage.readFrom, hs]
+    split
+    · exact ⟨(by first | rfl | trivial), (by first | rfl | trivial), hl, fun n hn => (by simp at hn)⟩
+    · obtain ⟨h1, h2, h3⟩ := readLongs_indep
+        (if len.toNat ≤ (a.data ++ a.spare).length then (a.data ++ a.spare).take len.toNat else List.replicate len.toNat 0#64)
+        (if len.toNat ≤ (b.data ++ b.spare).length then (b.data ++ b.spare).take len.toNat else List.replicate len.toNat 0#64)
+        s1 (by rw [take_or_fresh_length, take_or_fresh_length])
+      refine ⟨by rw [h1], h2, hl, ?_⟩
+      intro n hn
+      apply h3
+      by_cases hf : (readLongs (if len.toNat ≤ (a.data ++ a.spare).length then (a.data ++ a.spare).take len.toNat
+            else List.replicate len.toNat 0#64) s1).1.1 = true
+      · exact hf
+      · rw [if_neg hf] at hn; cases hn
+  | err => simp only [BitStorage.readFrom, hs]; exact ⟨(by first | rfl | trivial), (by first | rfl | trivial), hl, fun n hn => (by simp at hn)⟩
+  | panic => simp only [BitStorage.readFrom, hs]; exact ⟨(by first | rfl | trivial), (by first | rfl | trivial), hl, fun n hn => (by simp at hn)⟩
+
+theorem fix_indep (a b : BitStorage) (hd : a.data = b.data) (hl : a.length = b.length) (bits : Int) :
+    (a.fix bits).1 = (b.fix bits).1 ∧ ((a.fix bits).1 = .ok () → SameButSpare (a.fix bits).2 (b.fix bits).2) := by
+  unfold BitStorage.fix SameButSpare
+  by_cases h0 : bits = 0
+  · simp only [h0, if_true]; exact ⟨trivial, fun _ => ⟨hd, trivial, trivial, hl, trivial⟩⟩
+  · simp only [h0, if_false]
+    by_cases hn : bits < 0
+    · simp [hn]
+    · simp only [hn, if_false, hl, hd]
+      rcases calcBitStorageSize bits b.length with sz | _ | _
+      · simp only
+        split <;> simp
+      · simp
+      · simp
+
+/-- `ReadFrom` determines the container from the wire bytes: two destinations of the same configuration and
+length — whatever palette, logical width, storage width and longs they held — give the same outcome and the
+same residual on every stream, and on success the same logical width, palette and storage (up to the spare
+capacity of the backing array) -/
+theorem readFrom_indep (d1 d2 : Container) (hcfg : d1.cfg = d2.cfg) (hlen : d1.data.length = d2.data.length)
+    (s : Stream) :
+    (d1.readFrom s).1 = (d2.readFrom s).1 ∧ (d1.readFrom s).2.2 = (d2.readFrom s).2.2 ∧
+      (∀ n, (d1.readFrom s).1 = .ok n →
+        (d1.readFrom s).2.1.bits = (d2.readFrom s).2.1.bits ∧ (d1.readFrom s).2.1.cfg = (d2.readFrom s).2.1.cfg ∧
+        (d1.readFrom s).2.1.pal = (d2.readFrom s).2.1.pal ∧
+        SameButSpare (d1.readFrom s).2.1.data (d2.readFrom s).2.1.data) := by
+  rcases hb : Rd.readByte s with ⟨r, s1⟩
+  cases r with
+  | ok b =>
+    rcases hp : (d2.cfg.create (b.toNat : Int)).readFrom s1 with ⟨r1, p, s2⟩
+    cases r1 with
+    | ok n1 =>
+      obtain ⟨e1, e2, e3, e4⟩ := bitStorage_readFrom_indep d1.data d2.data hlen s2
+      rcases hd1 : d1.data.readFrom s2 with ⟨ra, da, sa⟩
+      rcases hd2 : d2.data.readFrom s2 with ⟨rb, db, sb⟩
+      rw [hd1, hd2] at e1 e2 e3 e4
+      simp only at e1 e2 e3 e4
+      subst e1; subst e2
+      cases ra with
+      | ok n2 =>
+        obtain ⟨f1, f2⟩ := fix_indep da db (e4 n2 rfl) e3 (d2.cfg.bits (b.toNat : Int))
+        simp only [Container.readFrom, hb, hcfg, hp, hd1, hd2]
+        refine ⟨by rw [f1], (by first | rfl | trivial), ?_⟩
+        intro n hn
+        refine ⟨(by first | rfl | trivial), (by first | exact hcfg | trivial), (by first | rfl | trivial), f2 ?_⟩
+        rcases hfa : (da.fix (d2.cfg.bits (b.toNat : Int))).1 with u | _ | _
+        · rfl
+        · simp [hfa] at hn
+        · simp [hfa] at hn
+      | err => simp only [Container.readFrom, hb, hcfg, hp, hd1, hd2]; exact ⟨(by first | rfl | trivial), (by first | rfl | trivial), fun n hn => (by simp at hn)⟩
+      | panic => simp only [Container.readFrom, hb, hcfg, hp, hd1, hd2]; exact ⟨(by first | rfl | trivial), (by first | rfl | trivial), fun n hn => (by simp at hn)⟩
+    | err => simp only [Container.readFrom, hb, hcfg, hp]; exact ⟨(by first | rfl | trivial), (by first | rfl | trivial), fun n hn => (by simp at hn)⟩
+    | panic => simp only [Container.readFrom, hb, hcfg, hp]; exact ⟨(by first | rfl | trivial), (by first | rfl | trivial), fun n hn => (by simp at hn)⟩
+  | err => simp only [Container.readFrom, hb]; exact ⟨(by first | rfl | trivial), (by first | rfl | trivial), fun n hn => (by simp at hn)⟩
+  | panic => simp only [Container.readFrom, hb]; exact ⟨(by first | rfl | trivial), (by first | rfl | trivial), fun n hn => (by simp at hn)⟩
+
+/-- containers that agree up to spare capacity answer every `Get` alike -/
+theorem get_of_same {c1 c2 : Container} (hp : c1.pal = c2.pal) (hd : SameButSpare c1.data c2.data) (i : Int) :
+    c1.get i = c2.get i := by
+  simp only [Container.get, hd.get_eq, hp]
+
 end GoMC.Lemmas.Palette
